@@ -1,0 +1,45 @@
+//go:build verif
+
+package sipsp
+
+import (
+	"reflect"
+)
+
+// sepImpl is the executable twin of the verifier's sep intrinsic (used only by replay tests).
+func sepImpl(a, b interface{}) bool {
+	lo1, hi1 := extent(a)
+	lo2, hi2 := extent(b)
+	if lo1 == hi1 || lo2 == hi2 {
+		return true
+	}
+	return hi1 <= lo2 || hi2 <= lo1
+}
+
+func extent(x interface{}) (uintptr, uintptr) {
+	v := reflect.ValueOf(x)
+	switch v.Kind() {
+	case reflect.Ptr:
+		if v.IsNil() {
+			return 0, 0
+		}
+		return v.Pointer(), v.Pointer() + v.Type().Elem().Size()
+	case reflect.Slice:
+		if v.Cap() == 0 {
+			return 0, 0
+		}
+		return v.Pointer(), v.Pointer() + uintptr(v.Cap())*v.Type().Elem().Size()
+	}
+	return 0, 0
+}
+
+func sameSliceImpl(a, b interface{}) bool {
+	va, vb := reflect.ValueOf(a), reflect.ValueOf(b)
+	if va.Kind() != reflect.Slice || vb.Kind() != reflect.Slice {
+		return false
+	}
+	if va.Len() != vb.Len() || va.Cap() != vb.Cap() {
+		return false
+	}
+	return va.Cap() == 0 || va.Pointer() == vb.Pointer()
+}
